@@ -32,6 +32,7 @@ func runC01(c *Check, tier string) {
 	ruleR07b(c, "R01i")
 	// every existing input file contributes its bytes
 	ruleR09f(c, "R01j")
+	ruleMemoKeyComplete(c, "R01k", "loading", "hashing", "execution", "output", "dag", "analysis", "selection", "config", "label", "model", "caching", "cmd")
 }
 
 // ruleResolverTotal (shared with C02/C15): a function of internal/dag that turns a node's dependency list
